@@ -5,15 +5,17 @@ from mir import place_str, op_place, op_str
 
 VEC = ("alloc::vec::Vec", "std::vec::Vec")
 GROW = {"push", "insert", "extend", "append", "extend_from_slice", "resize", "resize_with", "splice",
-        "push_within_capacity", "extend_from_within", "insert_mut", "push_mut"}
+        "push_within_capacity", "extend_from_within", "insert_mut", "push_mut", "push_back", "push_front"}
 SHRINK_OR_READ = {"pop", "clear", "len", "is_empty", "iter", "truncate", "remove", "swap_remove", "drain",
-                  "retain", "first", "last", "get", "as_slice", "capacity", "shrink_to_fit", "split_off", "dedup"}
+                  "retain", "first", "last", "get", "as_slice", "capacity", "shrink_to_fit", "split_off", "dedup",
+                  "pop_back", "pop_front", "back", "front", "iter_mut", "retain_mut", "make_contiguous"}
 
 IDLE_VEC_TY = "Vec<client::pool::idle::Idle<"
+IDLE_SEQ_TYS = ("Vec<client::pool::idle::Idle<", "VecDeque<client::pool::idle::Idle<")   # the list may be a Vec or a VecDeque
 
 
 def _is_idle_vec_ref(ty):
-    return ty.startswith("&mut ") and IDLE_VEC_TY in ty
+    return ty.startswith("&mut ") and any(x in ty for x in IDLE_SEQ_TYS)
 
 
 def pushguard_sites(facts):
@@ -59,7 +61,7 @@ def P1(ctx, facts):
                     continue
                 p = s["p"]
                 last = p["p"][-1] if p["p"] else None
-                if isinstance(last, dict) and "f" in last and IDLE_VEC_TY in (last.get("t") or "") and last.get("t", "").startswith("std::vec::Vec<"):
+                if isinstance(last, dict) and "f" in last and any(x in (last.get("t") or "") for x in IDLE_SEQ_TYS) and last.get("t", "").startswith(("std::vec::Vec<", "std::collections::VecDeque<", "alloc::")):
                     ctx.bad("%s|assign-inner" % f.nkey, "idle Vec field assigned outside a constructor", f.where(b))
         for c in f.calls():
             tys = c.t.get("argtys") or []
@@ -76,7 +78,7 @@ def P1(ctx, facts):
             if "inner" in names:
                 o = r["ops"][names.index("inner")]
                 rts = f.roots(o, through_calls=False)
-                ok = all(x.kind == "call" and x.site.is_("Vec::new", "alloc::vec::Vec::new", "std::vec::Vec::new") for x in rts)
+                ok = all(x.kind == "call" and x.site.matches(r"(vec::Vec|VecDeque).*::(new|with_capacity)$|Default.*::default$") for x in rts)
                 ctx.check(ok, "%s|ctor" % f.nkey, "IdleConnections is constructed with an empty Vec",
                           "IdleConnections constructed from %s" % sorted(map(repr, rts)), f.where(b))
     # who may call IdleConnections::push
